@@ -1,10 +1,16 @@
 (* C20 -- pivot_stack / pivot_unstack models at observed values + comparators.  Labels are tuples
    (list val; a depth-1 label is a 1-tuple). *)
-Require Import SF.Prelude SF.Dtype SF.Value SF.RelJoinVal SF.RelStack.
+Require Import SF.Prelude SF.Dtype SF.Value Gen.Gen_c20 SF.RelJoinVal SF.RelStack.
 
 Definition tup := list val.
 Definition tup_eqb : tup -> tup -> bool := list_eqb val_eqb.
 Definition vsframe := sframe val tup tup.
+
+Definition vsf (rows cols : list tup) (cells : list (list val)) : vsframe := mk_sframe rows cols cells.
+Definition vsf_c (rows : list tup) (cols : list (tup * tup)) (cells : list (list val)) : sframe val tup (tup * tup) := mk_sframe rows cols cells.
+Definition vsf_r (rows : list (tup * tup)) (cols : list tup) (cells : list (list val)) : sframe val (tup * tup) tup := mk_sframe rows cols cells.
+Definition OkS (f : vsframe) : res vsframe := Ok f.
+Definition ErrS (e : string) : res vsframe := Err e.
 
 (* the contract axis keeps the group labels; with nothing left of it the axis is the auto index 0..n-1 *)
 Definition group_label (i : nat) (g : tup) : tup := match g with [] => [VInt (Z.of_nat i)] | _ => g end.
@@ -20,7 +26,7 @@ Definition M_stack_v (fill : val) (f : sframe val tup (tup * tup)) : vsframe :=
 Definition S_stack_v (fill : val) (f : sframe val tup (tup * tup)) : vsframe :=
   stack_view (S_stack tup_eqb tup_eqb tup_eqb fill f).
 Definition M_unstack_v (fill : val) (castfill : list (res val)) (f : sframe val (tup * tup) tup) : res vsframe :=
-  res_map unstack_view (M_unstack tup_eqb tup_eqb fill castfill f).
+  res_map unstack_view (M_unstack tup_eqb tup_eqb gen_unstack_dtype_from_last_group fill castfill f).
 Definition S_unstack_v (fill : val) (f : sframe val (tup * tup) tup) : vsframe :=
   unstack_view (S_unstack tup_eqb tup_eqb tup_eqb fill f).
 
